@@ -31,8 +31,12 @@ ImplStream(r) == IF r.version = 1
 \* the content-root search (FindRoot.tla) on the recorded world: r.world = [files, dirs] (sequences of paths)
 FR == INSTANCE FindRoot WITH Variant <- "fixed", w <- 0, done <- 0
 FrFs(r) == [files |-> SeqToSet(r.world.files), dirs |-> SeqToSet(r.world.dirs)]
+\* protocol records (behaviours of CheckerProto.tla replayed into one Checker object): r.truth is what is on
+\* disk at the moment results() was asked - one <<verifies, size>> per piece
+Truth(r) == [k \in DOMAIN r.truth |-> <<r.truth[k][1], r.truth[k][2]>>]
 Clause(r, c) ==
-  CASE c = "M16.impl" -> Failed(r) \/ r.nostream \/ Got(r) = ImplStream(r)
+  CASE c = "C16.proto" -> ~Failed(r) /\ Abs(r.ppm - SharePpm(Truth(r))) <= 1
+    [] c = "M16.impl" -> Failed(r) \/ r.nostream \/ Got(r) = ImplStream(r)
     [] c = "C16.stream" -> ~Failed(r) /\ (r.nostream \/ Got(r) = Ref(r))
     [] c = "C16.total"  -> ~Failed(r) /\ (r.nostream \/ ConsumedBytes(Got(r)) = Total(r.recs))
     [] c = "C16.ppm"    -> ~Failed(r) /\ Abs(r.ppm - SharePpm(Ref(r))) <= 1 /\ r.ppm2 = r.ppm
